@@ -3,6 +3,7 @@ package main
 var clientStubs = map[string]string{
 	"(*golang.org/x/sync/singleflight.Group).Do":     "verifStubSFDo",
 	"(*golang.org/x/sync/singleflight.Group).DoChan": "verifStubSFDoChan",
+	"(*golang.org/x/sync/singleflight.Group).Forget": "verifStubSFForget",
 	"context.WithTimeout":                            "verifStubWithTimeout",
 	"context.WithCancel":                             "verifStubWithCancel",
 	"context.Background":                             "verifBackground",
@@ -12,7 +13,8 @@ var clientStubs = map[string]string{
 func init() {
 	c11 := &Property{ID: "C11", Pkgs: []string{"client/setec"}, Bounds: map[string]string{"names in the store": "2 / 3", "per-request faults": "every request may fail (nondet)"}}
 	c11.Harnesses = append(c11.Harnesses, &HarnessSpec{ReplayRepeat: 40, Name: "verifHarnessC11Refresh", Pkg: "client/setec", Stubs: clientStubs,
-		Params: map[string]int{"names": 2}, ThoroughParams: map[string]int{"names": 3}, ExpectReach: []string{"end-failed", "end-ok"},
+		ModelOnlyLabels: map[string]string{"flight-in-progress-never-forgotten": sfNote},
+		Params:          map[string]int{"names": 2}, ThoroughParams: map[string]int{"names": 3}, ExpectReach: []string{"end-failed", "end-ok", "end-joined-gave-up"},
 		Desc: "one Refresh (poll + applyUpdates + cache flush) from an arbitrary store state against an arbitrary service state"})
 	c11.Harnesses = append(c11.Harnesses, &HarnessSpec{Name: "verifHarnessC11Jitter", Pkg: "client/setec", Stubs: clientStubs, Params: map[string]int{}, ExpectReach: []string{"end"}, Solver: "cvc5-int",
 		ModelOnlyLabels: map[string]string{"within-ten-percent": "the counterexample fixes the result of math/rand.Intn, which the native run cannot control"},
@@ -25,7 +27,8 @@ func init() {
 	c19 := &Property{ID: "C19", Pkgs: []string{"client/setec"}, Bounds: map[string]string{"names in the store": "2 / 3", "time": "any instants within +-2^40 s, ages any int64 ns"}}
 	c19.Harnesses = append(c19.Harnesses,
 		&HarnessSpec{Name: "verifHarnessC11Refresh", Pkg: "client/setec", Stubs: clientStubs, Params: map[string]int{"names": 2}, ThoroughParams: map[string]int{"names": 3},
-			ExpectReach: []string{"end-ok"}, Desc: "expiry only drops stale, unreferenced, undeclared secrets at a poll"},
+			ModelOnlyLabels: map[string]string{"flight-in-progress-never-forgotten": sfNote},
+			ExpectReach:     []string{"end-ok", "end-failed"}, Desc: "expiry only drops stale, unreferenced, undeclared secrets at a poll, whatever the service answers (values, failures, not-found)"},
 		ch("verifHarnessC12ApplyUpdates", map[string]int{"names": 2}, map[string]int{"names": 3}, []string{"end"}, "applyUpdates with an arbitrary update set (also one computed before a handle was handed out): a name with a handle or watcher is never dropped"),
 		&HarnessSpec{Name: "verifHarnessC19HasExpired", Pkg: "client/setec", Stubs: clientStubs, Params: map[string]int{}, ExpectReach: []string{"end"},
 			Desc: "hasExpired == (undeclared and age configured and now - lastAccess > age) over all stamps"},
@@ -69,8 +72,12 @@ var jsonPartialNote = "the counterexample uses the JSON model's 'error with a pa
 func ch(name string, params, thorough map[string]int, reach []string, desc string) *HarnessSpec {
 	return &HarnessSpec{ReplayRepeat: 40, Name: name, Pkg: "client/setec", Stubs: clientAll(), Params: params, ThoroughParams: thorough, ExpectReach: reach, Desc: desc,
 		ModelOnlyLabels: map[string]string{"undecodable-cache-ignored-as-a-whole": jsonPartialNote, "undecodable-cache-contributes-no-names": jsonPartialNote,
-			"no-request-under-lock": lockNote, "lock-released": lockNote, "lockset": lockNote, "rebuild-is-atomic-under-updater-lock": lockNote}}
+			"no-request-under-lock": lockNote, "lock-released": lockNote, "lockset": lockNote, "rebuild-is-atomic-under-updater-lock": lockNote,
+			"flight-in-progress-never-forgotten": sfNote, "concurrent-registration-not-lost": sfNote}}
 }
+
+const sfNote = "the second caller (another goroutine's flight or registration at a chosen point of the schedule) exists only in the singleflight model; the native run has one goroutine"
+
 
 func init() {
 	fsNote := "file-system faults and kills are a model; realising them natively needs ptrace fault injection"
@@ -106,6 +113,7 @@ func init() {
 		ch("verifHarnessC19HandleStamps", map[string]int{"names": 2}, map[string]int{"names": 3}, []string{"end-known"}, "a handle call returns its own installed bytes, sends no request, releases the lock"),
 		ch("verifHarnessC12HandleSeesInstall", map[string]int{"names": 2}, map[string]int{"names": 3}, []string{"end"}, "a handle obtained earlier returns each newly installed value, in install order, without any request"),
 		ch("verifHarnessC12Close", map[string]int{"names": 2}, map[string]int{"names": 3}, []string{"end"}, "Close cancels the poller and returns; handles keep serving afterwards"),
+		ch("verifHarnessC13ShutdownFlush", map[string]int{"names": 2}, map[string]int{"names": 3}, []string{"end"}, "the poller releases the store's lock on every exit path, also when the shutdown flush fails: handles keep serving without blocking"),
 		ch("verifHarnessC16Lookup", map[string]int{"names": 2}, map[string]int{"names": 3}, []string{"end-installed", "end-failed", "end-known", "end-disabled"}, "lookup under lock-set obligations: no request under the lock"),
 		ch("verifHarnessC11Refresh", map[string]int{"names": 2}, map[string]int{"names": 3}, []string{"end-ok"}, "poll keeps invariant J"))
 	propRegistry = append(propRegistry, c12)
@@ -114,7 +122,9 @@ func init() {
 	c15.Harnesses = append(c15.Harnesses,
 		ch("verifHarnessC15Updater", map[string]int{"steps": 4}, map[string]int{"steps": 6}, []string{"end", "end-create-failed"}, "NewUpdater + bounded histories of installs and Gets with failing builders and closers"),
 		ch("verifHarnessC15TwoUpdaters", map[string]int{"steps": 4}, map[string]int{"steps": 5}, []string{"end"}, "two updaters on one secret: every install reaches both, each rebuilds only when owed"),
-		ch("verifHarnessC15Notify", map[string]int{}, nil, []string{"end"}, "notify is non-blocking and a level trigger"))
+		ch("verifHarnessC15Notify", map[string]int{}, nil, []string{"end"}, "notify is non-blocking and a level trigger"),
+		ch("verifHarnessC12ApplyUpdates", map[string]int{"names": 2}, map[string]int{"names": 3}, []string{"end", "end-watched-updated"}, "an install with an arbitrary update set and a possibly failing cache write notifies the watcher of every updated name"),
+		ch("verifHarnessC16LookupWatcher", map[string]int{"names": 2}, map[string]int{"names": 3}, []string{"end-ok", "end-raced"}, "watcher registration for known and looked-up names, also when another updater registers concurrently"))
 	propRegistry = append(propRegistry, c15)
 
 	c16 := &Property{ID: "C16", Pkgs: []string{"client/setec"}, Bounds: map[string]string{"names": "2 / 3", "time": "ghost clock in ns, any start < 2^50, any deadline", "callers": "this caller plus at most one earlier leader whose own context may be cancelled"}}
@@ -123,7 +133,7 @@ func init() {
 	hb.UnwindFn = map[string]int{"(*github.com/tailscale/setec/client/setec.Store).lookupSecretInternal": 4}
 	c16.Harnesses = append(c16.Harnesses,
 		ch("verifHarnessC16Lookup", map[string]int{"names": 2}, map[string]int{"names": 3}, []string{"end-installed", "end-failed", "end-known", "end-disabled"}, "LookupSecret: gate, single flight per name, install exactly the served value, no retry"),
-		ch("verifHarnessC16LookupWatcher", map[string]int{"names": 2}, map[string]int{"names": 3}, []string{"end-ok", "end-failed", "end-disabled"}, "NewUpdater/lookupWatcher for known and unknown names: lock balanced around the lookup, watcher registered, disabled lookup is an error without a request"),
+		ch("verifHarnessC16LookupWatcher", map[string]int{"names": 2}, map[string]int{"names": 3}, []string{"end-ok", "end-failed", "end-disabled", "end-raced"}, "NewUpdater/lookupWatcher for known and unknown names: lock balanced around the lookup, watcher registered (also when another updater registers inside the lookup window), disabled lookup is an error without a request"),
 		ch("verifHarnessC16SecretGate", map[string]int{"names": 2}, map[string]int{"names": 3}, []string{"end"}, "Secret panics iff unknown and lookups disabled; never a request"),
 		hb)
 	propRegistry = append(propRegistry, c16)
